@@ -49,6 +49,11 @@ ADJ = [
     "SELECT a AS\"b\" FROM t\n", "SELECT 1AS b\n", "SELECT a FROM t WHERE a IN(SELECT b FROM u)AND c=1\n", "SELECT *FROM t\n",
     "SELECT a,b FROM t WHERE a=1AND b=2\n", "SELECT a FROM t LIMIT 1OFFSET 2\n", "SELECT COUNT(*)AS c FROM t\n",
     "SELECT COUNT(DISTINCT(a)) FROM t\n", "SELECT COUNT(DISTINCT(a + b)), SUM(DISTINCT(c)) FROM t\n",
+    # a comment whose closing newline is the only thing between it and a token that wants to touch its neighbour
+    "SELECT foo -- c\n(1)\n", "SELECT count -- rows\n(*) FROM t\n", "SELECT\n    my_func -- explain\n    (a, b)\nFROM t\n",
+    "SELECT\n    arr -- first\n    [1] AS n\nFROM t\n", "CREATE TABLE t (\n    a varchar -- short\n    (10)\n)\n",
+    "SELECT a:: -- c\nint FROM t\n", "SELECT a -- c\n::int FROM t\n", "SELECT foo /* c */\n(1)\n", "SELECT a -- c\n, b FROM t\n",
+    "SELECT a FROM t -- c\nWHERE a = 1\n", "SELECT t -- c\n.a FROM t\n", "SELECT a -- c\n;\n",
 ]
 
 
@@ -182,6 +187,13 @@ CAP_HAND = [
     ("snowflake", "SELECT \"MixedCase\", fooBar, $1, t.$2, x:jsonKey::String, TRY_CAST(a AS Number(10, 2)) FROM @Stage_Name AS tT\n"),
     ("sparksql", "SELECT `MixedCase`, fooBar, CAST(x AS sTrInG), array(1, 2)[0], map('Ka', 1) FROM Db.Tbl TABLESAMPLE (10 PERCENT)\n"),
     ("oracle", "SELECT \"MixedCase\", fooBar, NVL(a, b), q'[QuoteD]', TO_DATE('2020', 'YYYY') FROM Tbl tT WHERE ROWNUM < 10\n"),
+    # quoted names in function and type position, comments inside a data type
+    ("ansi", "CREATE TABLE t (a DOUBLE /* Foo Bar */ precision, b INT, c Timestamp -- Keep Me\n WITH TIME ZONE)\n"),
+    ("bigquery", "SELECT `MyFunc`(a), `proj.ds.Fn`(d), Upper(x) FROM t\n"),
+    ("tsql", "SELECT [MyFunc](a), [dbo].[Fn](b), Upper(x) FROM t;\nCREATE TABLE u (a [Int], b [MyType], c INT, d [dbo].[MyUdt]);\n"),
+    ("postgres", "CREATE TABLE t (a INT, b \"MyType\", c text, d myschema.\"MyEnum\"[]);\nSELECT b::\"char\", \"MyFn\"(a) FROM t;\n"),
+    ("oracle", "CREATE TABLE t (a NUMBER, b \"MyObjType\", c varchar2(10));\n"),
+    ("mysql", "SELECT `MyFn`(a), Upper(b), CAST(c AS signed) FROM `Tbl`;\n"),
 ]
 
 
